@@ -21,7 +21,7 @@ DTS = [0, 0.25, 1, 59.5, 60, 299, 300, 301, 359, 360, 361, 659, 660, 661, 900]
 
 KINDS = ["flow_step", "flow_new", "conn", "claim", "open", "add", "close", "release", "alloc", "list",
          "drop", "reconn", "adv", "restart", "ping", "rawconn", "claim_open",
-         "bad", "resend", "longadv", "faultadv", "fill", "faultadv2", "linger", "reinc"]
+         "bad", "resend", "longadv", "faultadv", "fill", "faultadv2", "linger", "reinc", "reopen"]
 
 
 class Profile(object):
@@ -55,7 +55,7 @@ class Profile(object):
         return out
 
 
-BASE_W = dict(linger=1, reinc=1, flow_step=24, flow_new=4, conn=2, claim=3, open=3, add=4, close=3, release=2, alloc=1, list=1,
+BASE_W = dict(linger=1, reinc=1, reopen=1, flow_step=24, flow_new=4, conn=2, claim=3, open=3, add=4, close=3, release=2, alloc=1, list=1,
               drop=2, reconn=3, adv=3, restart=1, ping=0, rawconn=0, claim_open=1,
               bad=0, resend=0, longadv=0, faultadv=0, fill=0, faultadv2=0)
 
@@ -68,7 +68,7 @@ def W(**kw):
 
 PROFILES = {
     "mixed": Profile("mixed", W()),
-    "replay": Profile("replay", W(add=9, open=7, reconn=4, restart=2, longadv=1), napps=2, nmail=2),
+    "replay": Profile("replay", W(reopen=3, add=9, open=7, reconn=4, restart=2, longadv=1), napps=2, nmail=2),
     "fanout": Profile("fanout", W(linger=3, add=10, open=8, conn=8, claim=2, alloc=0, release=1, restart=3, adv=5), napps=1, nsides=3, nmail=2, nnames=2, forged=True),
     "claims": Profile("claims", W(claim=10, claim_open=2, release=5, close=4, add=1, open=2, restart=2, longadv=2, adv=6, reconn=5), napps=2, nnames=3),
     "crowd": Profile("crowd", W(reinc=3, claim=8, open=7, close=4, release=3, add=4, reconn=4, conn=8, alloc=0, longadv=2, adv=2), napps=1, nsides=4, nnames=1, nmail=1),
@@ -423,6 +423,30 @@ class Driver(object):
             return
         if kind == "fill":
             self.fill(a, b, c, m)
+            return
+        if kind == "reopen":
+            # A and B share a mailbox with stored messages; A closes (B keeps it alive); A comes back and
+            # re-opens (or re-sends its close); later opens must still replay everything
+            app = self.app_of(c)
+            sa, sb = self.side_of(a), self.side_of(a + 1)
+            mb = self.mailbox_literal(app, b)
+            ca = self.new_conn(app, sa)
+            self.do({"op": "send", "c": ca, "msg": {"type": "open", "mailbox": mb}})
+            self.do({"op": "send", "c": ca, "msg": {"type": "add", "phase": t1, "body": t2}})
+            self.do({"op": "advance", "dt": [0.25, 10.0, 60.0][m % 3]})
+            cb = self.new_conn(app, sb)
+            self.do({"op": "send", "c": cb, "msg": {"type": "open", "mailbox": mb}})
+            self.do({"op": "advance", "dt": [0.25, 10.0][(m >> 2) % 2]})
+            self.do({"op": "send", "c": ca, "msg": {"type": "close"}})
+            self.do({"op": "advance", "dt": [0.25, 20.0][(m >> 3) % 2]})
+            ca2 = self.new_conn(app, sa)
+            if m & 16:
+                self.do({"op": "send", "c": ca2, "msg": {"type": "close", "mailbox": mb}})
+            else:
+                self.do({"op": "send", "c": ca2, "msg": {"type": "open", "mailbox": mb}})
+            self.do({"op": "drop", "c": cb})
+            cb2 = self.new_conn(app, sb)
+            self.do({"op": "send", "c": cb2, "msg": {"type": "open", "mailbox": mb}})
             return
         if kind == "reinc":
             # a side of an expired incarnation comes back to the same id, then two more sides arrive
